@@ -42,6 +42,13 @@ theorem shape_cleanup (l : Loc) (h : LocInv l) :
   have hc : l.lOff + l.cur ≤ l.lsize := by omega
   simp only [stepLoc, h.notBad, hc, if_true, Bool.false_eq_true, if_false]
 
+theorem shape_fnReset (l : Loc) (h : LocInv l) :
+    (stepLoc l .fnReset).1 = { l with cur := 0, max := 0, lOff := 0, tOff := 0, frames := [] } := by
+  have hlt := h.lOff_le_tOff
+  have h1 := h.curMax; have h2 := h.maxN; have h3 := h.tFit; have h4 := h.sizes
+  have hc : l.lOff + l.cur ≤ l.lsize := by omega
+  simp only [stepLoc, h.notBad, hc, if_true, Bool.false_eq_true, if_false]
+
 theorem shape_enterLit (l : Loc) (h : LocInv l) :
     (stepLoc l .enterLit).1.lOff = l.lOff + l.cur ∧ (stepLoc l .enterLit).1.cur = 0 := by
   have hlt := h.lOff_le_tOff
@@ -145,6 +152,11 @@ theorem stepLI_inv (p : Loc × Ids) (e : Ev) (h : LIInv p) : LIInv (stepLI p e) 
     rw [shape_freeAll l hL]
     simp only [stepIds, hb, hsb, Bool.false_eq_true, or_self, if_false]
     have := popMany_inv l.cur s hI (by omega)
+    exact ⟨this.1, by rw [this.2]; first | omega | (simp; omega)⟩
+  | fnReset =>
+    rw [shape_fnReset l hL]
+    simp only [stepIds, hb, hsb, Bool.false_eq_true, or_self, if_false]
+    have := popMany_inv (l.lOff + l.cur) s hI (by omega)
     exact ⟨this.1, by rw [this.2]; first | omega | (simp; omega)⟩
   | cleanup =>
     rw [shape_cleanup l hL]
